@@ -110,6 +110,14 @@ pub fn run_c06(run: &Run) {
     let flags = Flags { canonical: true, functions: false, memo: false, queries: false };
     explorations(run, flags);
     scale_sections(run, false);
+    // once more with a logger that accepts TRACE records
+    {
+        crate::report::trace_logging(true);
+        let cfg = Explore { vars: 2, depth: 4, with_memo_key: false, reimports: true, flags, init: Init::Empty, name: "store V=2 with trace logging switched on".to_string() };
+        let st = explore(run, &cfg);
+        run.add_counts(st.states, st.transitions, st.transitions, 0);
+        crate::report::trace_logging(false);
+    }
     run.extra("states_are", json!("distinct node tables reached"));
     run.extra("transitions_are", json!("real operations executed on a store and checked"));
 }
@@ -195,6 +203,14 @@ pub fn run_c07(run: &Run) {
     for st in res {
         run.add_counts(0, st.0, st.0, 0);
         run.add_outcomes(st.1);
+    }
+    // once more with a logger that accepts TRACE records
+    {
+        crate::report::trace_logging(true);
+        let cfg = Explore { vars: 2, depth: 4, with_memo_key: false, reimports: true, flags, init: Init::Empty, name: "store V=2 with trace logging switched on".to_string() };
+        let st = explore(run, &cfg);
+        run.add_counts(st.states, st.transitions, st.transitions, 0);
+        crate::report::trace_logging(false);
     }
     run.extra("states_are", json!("distinct node tables reached"));
     run.extra("transitions_are", json!("real operations executed and compared with the reference operation on truth tables"));
